@@ -499,6 +499,16 @@ def register(M):
             raise AnalysisError(f'namedtuple: {e}', node)
 
     # ---- warnings / logging -----------------------------------------------------------------
+    @ext('contextlib.suppress')
+    def _suppress(interp, args, kw, node):
+        cm = ContextMgr(None)
+        cm.suppresses = list(args)
+        return cm
+
+    @ext('contextlib.nullcontext')
+    def _nullcontext(interp, args, kw, node):
+        return ContextMgr(args[0] if args else None)
+
     @ext('warnings.catch_warnings')
     def _cw(interp, args, kw, node):
         return ContextMgr()
